@@ -11,7 +11,7 @@ use crate::data_types::w3c::credential_attributes::CredentialAttributeValue;
 use crate::data_types::w3c::presentation::W3CPresentation;
 use crate::data_types::w3c::proof::CredentialPresentationProofValue;
 use crate::error::Result;
-use crate::services::helpers::encode_credential_attribute;
+use crate::services::helpers::{attr_common_view, encode_credential_attribute};
 use crate::types::{PresentationRequest, RevocationRegistryDefinition, RevocationStatusList};
 use crate::utils::query::Query;
 use crate::verifier::{
@@ -116,10 +116,10 @@ fn check_credential_restrictions(
         let mut attr_value_map: HashMap<String, Option<String>> = HashMap::new();
         for (attribute, value) in credential.credential_subject.0.iter() {
             if let CredentialAttributeValue::String(value) = value {
-                attr_value_map.insert(attribute.to_owned(), Some(value.to_string()));
+                attr_value_map.insert(attr_common_view(attribute), Some(value.to_string()));
             }
             if let CredentialAttributeValue::Number(value) = value {
-                attr_value_map.insert(attribute.to_owned(), Some(value.to_string()));
+                attr_value_map.insert(attr_common_view(attribute), Some(value.to_string()));
             }
         }
         process_operator(&attr_value_map, restrictions, &filter).map_err(err_map!(
